@@ -24,6 +24,7 @@ type HarnessSpec struct {
 	What     string   `json:"what,omitempty"`
 	MaxPaths int      `json:"max_paths,omitempty"`
 	MaxSteps int64    `json:"max_steps,omitempty"`
+	MaxSecs  int      `json:"max_seconds,omitempty"` // wall-clock budget of this harness (quick tier; x6 in thorough); exceeding it is a path/time limit, not a pass
 }
 
 type PropSpec struct {
@@ -214,6 +215,13 @@ func main() {
 		}
 		if h.MaxSteps > 0 {
 			opt.MaxSteps = h.MaxSteps
+		}
+		if h.MaxSecs > 0 {
+			secs := h.MaxSecs
+			if *tier == "thorough" {
+				secs *= 6
+			}
+			opt.Deadline = time.Now().Add(time.Duration(secs) * time.Second)
 		}
 		if *smtlog {
 			opt.LogDir = workDir
